@@ -192,11 +192,11 @@ class C19(Prop):
     # TODO(defect): DimArray.write_nc(f) without name= does not take the name from the array's `name` attribute
     # (DatasetOnDisk.write looks the attribute up on the on-disk dataset, not on the array): ValueError.  The stratum
     # is generated only when this is switched on.
-    NAME_FROM_ATTRS = False
+    NAME_FROM_ATTRS = True
     # TODO(defect): Dataset.write_nc(f, mode='w-') on an existing file overwrites it (its clobber parameter defaults to
     # True, so _maybe_open_file never turns 'w-' into clobber=False; DimArray.write_nc, default None, refuses).  The
     # form is generated only when this is switched on.
-    DATASET_WMINUS = False
+    DATASET_WMINUS = True
 
     def gen_json(self, rng):
         rank = rng.choice([0, 1, 2, 2, 3])
@@ -388,6 +388,7 @@ class C19(Prop):
             by_variable = first["how"] in ("dimarray_w", "handle_dimarray")       # these cannot carry dataset-level metadata
             ds_attrs = {} if by_variable else dict(before["attrs"])
             notes = {}
+            expected_first = {}
 
             def write_first():
                 if first.get("preexisting"):
@@ -436,6 +437,7 @@ class C19(Prop):
 
             def run():
                 write_first()
+                expected_first.update(expected)         # (later steps may replace a variable: `expected` then describes the final file)
                 after_first = obs_dataset(da.read_nc(path))
                 refusals = []
                 for st in c["steps"][1:]:
@@ -484,6 +486,10 @@ class C19(Prop):
                     for d in (st.get("labels_override") or {}):
                         # the file keeps the labels it has
                         exp["axes"][a.dims.index(d)]["labels"] = expected_axes[d]["labels"]
+                    # rewriting a variable updates its metadata on disk, entries under other names stay (here: the `name`
+                    # entry of a first write that took the variable name from it)
+                    for kk, vv in expected.get(st["key"], {}).get("attrs_py", {}).items():
+                        exp["attrs_py"].setdefault(kk, vv)
                     expected[st["key"]] = exp
                     if obs(a) != a_before:
                         raise AssertionError("write modified the in-memory array")
@@ -491,6 +497,7 @@ class C19(Prop):
             out = core.guarded(run)
             out["input"] = before
             out["expected_vars"] = expected
+            out["expected_first_vars"] = expected_first
             out["expected_axes"] = expected_axes
             out["expected_ds_attrs"] = ds_attrs
             out["first_ds_attrs"] = {} if by_variable else dict(before["attrs"])
@@ -590,7 +597,7 @@ class C19(Prop):
                 prop_bad.append("nc.keys")
             else:
                 for k in inp["keys"]:
-                    prop_bad += self.cmp_var(first["vars"][k], io["expected_vars"][k] if c["steps"][0].get("name_from_attrs") else inp["vars"][k], "nc." + k, n3)
+                    prop_bad += self.cmp_var(first["vars"][k], io["expected_first_vars"][k] if c["steps"][0].get("name_from_attrs") else inp["vars"][k], "nc." + k, n3)
             if nc_attrs(first["attrs"]) != nc_attrs(io.get("first_ds_attrs", inp["attrs"])):
                 prop_bad.append("nc.dataset_attrs")
             prop_bad += self.cmp_axes(first["axes"], inp["axes"], "nc.")
